@@ -37,7 +37,7 @@ class C06(Prop):
     level = "exploration"
     technique = "callback-log monitor on a running bridge fed over loopback UDP; each judged datagram bracketed by sentinel broadcasts; gate + unknown-model oracle"
     rule = ("judged datagrams: (a) every length 0..400 x {fe f0 magic, no magic, 5 near-magics} x random/zero/capture-derived content (gate-passing "
-            "combinations excluded), (b) the 4 shipped captures truncated or extended by 1..3 bytes, (c) unknown model codes inside otherwise "
+            "combinations excluded), (b) the 4 shipped captures truncated or extended by 1..3 bytes, and extended / prefixed / cut by exactly one byte that sweeps all 256 values, (c) unknown model codes inside otherwise "
             "valid frames of all three lengths: all 1- and 2-bit neighbours of the 9 known codes + random codes (quick), all 65,527 (thorough); "
             "distinct = (class, length, magic, model code); non-trivial = all")
     level_text = ("Held-on-observed: every non-genuine datagram must leave no trace in any of four channels (device, warning, WARNING+ log, loop "
@@ -79,6 +79,13 @@ class C06(Prop):
         for ci in range(len(CAPTURES)):
             for delta in (-3, -2, -1, 1, 2, 3):
                 items.append(["cap", ci, delta])
+        # one byte more / one byte less than every genuine length, the extra or last byte sweeping all 256 values
+        for ci in range(len(CAPTURES)):
+            for v in range(256):
+                items.append(["edge", ci, "append", v])
+                if tier == "thorough" or v % 4 == 0 or v in (0x0A, 0x0D, 0x00, 0xFF, 0x20):
+                    items.append(["edge", ci, "prepend", v])
+                    items.append(["edge", ci, "replace_last_and_cut", v])
         codes = neighbours()
         r = env.rng("C06", seed, "codes")
         if tier == "thorough":
@@ -123,6 +130,18 @@ class C06(Prop):
             if rb.gate(data):
                 return None, None
             return data, ("nongenuine-capture", len(data), delta)
+        if kind == "edge":
+            _, ci, how, v = item
+            cap = self.caps[ci]
+            if how == "append":
+                data = cap + bytes([v])
+            elif how == "prepend":
+                data = bytes([v]) + cap
+            else:
+                data = cap[:-2] + bytes([v])
+            if rb.gate(data):
+                return None, None
+            return data, ("nongenuine-edge", len(data), how, v)
         _, code, n = item
         base = bytearray(rb.TEMPLATES[n])
         if r.random() < 0.5:
